@@ -61,8 +61,10 @@ def grid_state(grid):
 
 OPS = {
     "simple": ["diff", "interp", "min", "max", "cumsum", "diff2", "pad", "vecdiff", "ctor", "interp_dicts",
-               "min_unpadded", "max_unpadded", "diff_unpadded", "min_to_inner", "interp_to_none", "diff_to_none"],
-    "faces": ["fdiff", "finterp", "fvecdiff", "fvecinterp", "fpad", "fvecpad", "ctor_faces"],
+               "min_unpadded", "max_unpadded", "diff_unpadded", "min_to_inner", "interp_to_none", "diff_to_none",
+               "diff_2d_vector", "interp_2d_vector", "interp_default"],
+    "faces": ["fdiff", "finterp", "fvecdiff", "fvecinterp", "fpad", "fvecpad", "ctor_faces", "diff_2d_vector",
+              "interp_2d_vector"],
     "faces3": ["fdiff", "finterp", "fdiffz", "fcumsumz", "fpad", "fpadz", "fdiff2d"],
     "comodo": ["ctor_autoparse", "ctor_autoparse", "cdiff"],
     "metrics": ["derivative", "integrate", "average", "cumint", "get_metric", "interp_like", "mw_diff",
@@ -75,6 +77,17 @@ def gen_case(rng, tier, i):
     scen = rng.choice(list(OPS))
     k = rng.randint(1, 3)
     return {"scenario": scen, "ops": [rng.choice(OPS[scen]) for _ in range(k)], "seed": rng.randrange(1 << 30)}
+
+
+def first_grid(w, ds):
+    """the construction of the world's own Grid is a monitored call too: its arguments are snapshotted
+    before and after"""
+    import xgcm
+    before = (snap(w["ctor_kwargs"]), snap(ds))
+    grid = xgcm.Grid(ds, **w["ctor_kwargs"])
+    after = (snap(w["ctor_kwargs"]), snap(ds))
+    w["ctor_mutated"] = [n for n, b, a in zip(("ctor_kwargs", "ds"), before, after) if a != b]
+    return grid
 
 
 def build(case):
@@ -100,7 +113,17 @@ def build(case):
         w["metrics"] = {("X",): ["dx_c", "dx_g"], ("Y",): ["dy_c"]} if scen == "metrics" else None
         w["ctor_kwargs"] = dict(coords=w["coords"], boundary=w["boundary"], fill_value=w["fill"],
                                 metrics=w["metrics"], autoparse_metadata=False)
-        grid = xgcm.Grid(ds, **w["ctor_kwargs"])
+        # the user's preferred shifts, given for some positions only (the rest fall back to the defaults);
+        # sometimes one mapping shared by two axes
+        shifts = rr.choice([None, {"Y": {"center": "outer"}}, {"X": {"center": "left"}, "Y": {"left": "center", "center": "inner"}},
+                            "shared"])
+        if shifts == "shared":
+            one = {"center": "left"}
+            shifts = {"X": one, "Y": one}
+        if shifts is not None:
+            w["shifts"] = shifts
+            w["ctor_kwargs"]["default_shifts"] = shifts
+        grid = first_grid(w, ds)
         w["c"] = xr.DataArray(dyadic_array(rr, [n, m]), dims=["xc", "yc"], name="c", attrs={"units": "K"},
                               coords={"xc": ds.xc, "yc": ds.yc})
         w["u"] = xr.DataArray(dyadic_array(rr, [n, m]), dims=["xg", "yc"], name="u")
@@ -108,6 +131,7 @@ def build(case):
         w["co"] = xr.DataArray(dyadic_array(rr, [n, m + 1]), dims=["xc", "yo"], name="co")
         w["vecX"] = {"X": w["u"]}
         w["otherY"] = {"Y": w["v"]}
+        w["vec2"] = {"X": w["u"], "Y": w["v"]}
         w["to"] = {"X": "left", "Y": "left"}
         w["to_none"] = {"X": "left", "Y": None}        # "no target chosen for Y": the default shift applies
         w["call_boundary"] = {"X": "fill"}
@@ -126,12 +150,13 @@ def build(case):
         w["coords"] = copy.deepcopy(fg.GRID_COORDS)
         w["ctor_kwargs"] = dict(coords=w["coords"], face_connections=w["fc"], boundary=w["boundary"],
                                 fill_value=w["fill"], autoparse_metadata=False)
-        grid = xgcm.Grid(ds, **w["ctor_kwargs"])
+        grid = first_grid(w, ds)
         w["c"] = xr.DataArray(dyadic_array(rr, [nf, N, N]), dims=["face", "xc", "yc"], name="c")
         w["u"] = xr.DataArray(dyadic_array(rr, [nf, N, N]), dims=["face", "xg", "yc"], name="u")
         w["v"] = xr.DataArray(dyadic_array(rr, [nf, N, N]), dims=["face", "xc", "yg"], name="v")
         w["vecX"] = {"X": w["u"]}
         w["otherY"] = {"Y": w["v"]}
+        w["vec2"] = {"X": w["u"], "Y": w["v"]}
         w["bw"] = {"X": (1, 1), "Y": (1, 0)}
     elif scen == "comodo":
         # a dataset annotated for autoparsing; the shift attributes come as the types real files carry
@@ -144,7 +169,7 @@ def build(case):
             "yc": xr.DataArray(np.arange(3) + 0.5, dims=["yc"], attrs={"axis": "Y"}),
             "yg": xr.DataArray(np.arange(3) * 1.0, dims=["yg"], attrs={"axis": "Y", "c_grid_axis_shift": rr.choice([0.5, "0.5", np.float32(0.5)])})})
         w["ctor_kwargs"] = dict(periodic=False)
-        grid = xgcm.Grid(ds.copy(deep=True), **w["ctor_kwargs"])
+        grid = first_grid(w, ds.copy(deep=True))
         w["c"] = xr.DataArray(dyadic_array(rr, [n, 3]), dims=["xc", "yc"], name="c")
     elif scen == "faces3":
         # three axes; the table names an axis only for the faces that have a link along it (an omitted
@@ -160,7 +185,7 @@ def build(case):
         w["coords"] = dict(copy.deepcopy(fg.GRID_COORDS), Z={"center": "zc", "left": "zg"})
         w["ctor_kwargs"] = dict(coords=w["coords"], face_connections=w["fc"], boundary=w["boundary"],
                                 fill_value=w["fill"], autoparse_metadata=False)
-        grid = xgcm.Grid(ds, **w["ctor_kwargs"])
+        grid = first_grid(w, ds)
         w["c"] = xr.DataArray(dyadic_array(rr, [nf, N, N]), dims=["face", "xc", "yc"], name="c")
         w["c3"] = xr.DataArray(dyadic_array(rr, [nf, 2, N, N]), dims=["face", "zc", "xc", "yc"], name="c3")
         w["bw"] = {"X": (1, 1), "Y": (1, 0)}
@@ -170,7 +195,7 @@ def build(case):
         ds = xr.Dataset(coords={"zc": ("zc", np.arange(n) + 0.5), "zo": ("zo", np.arange(n + 1) * 1.0)})
         w["coords"] = {"Z": {"center": "zc", "outer": "zo"}}
         w["ctor_kwargs"] = dict(coords=w["coords"], boundary="fill", autoparse_metadata=False)
-        grid = xgcm.Grid(ds, **w["ctor_kwargs"])
+        grid = first_grid(w, ds)
         w["c"] = xr.DataArray(dyadic_array(rr, [n]), dims=["zc"], name="c")
         w["theta_anon"] = xr.DataArray(np.array([1.0, 2.0, 4.0, 8.0]), dims=["zc"])          # no name
         w["theta"] = xr.DataArray(np.array([1.0, 2.0, 4.0, 8.0]), dims=["zc"], name="theta")
@@ -219,6 +244,12 @@ def do(op, w):
         return pad(w["c"], g, boundary_width=w["bw"], boundary=w["call_boundary"], fill_value=w["call_fill"])
     if op == "vecdiff":
         return g.diff(w["vecX"], "X", other_component=w["otherY"])
+    if op == "diff_2d_vector":
+        return g.diff_2d_vector(w["vec2"], to="center")
+    if op == "interp_2d_vector":
+        return g.interp_2d_vector(w["vec2"], to="center", boundary=w.get("call_boundary"))
+    if op == "interp_default":         # no target named: the grid's default shifts decide
+        return g.interp(w["c"], ["X", "Y"])
     if op == "interp_dicts":
         return g.interp(w["c"], "X", to=w["to"], boundary=w["call_boundary"], fill_value=w["call_fill"])
     if op in ("ctor", "ctor_faces"):
@@ -299,6 +330,9 @@ def eval_case(case, drv):
     with warnings.catch_warnings():
         warnings.simplefilter("ignore")
         w = build(case)
+        if w["ctor_mutated"]:
+            return {"corr_ok": True, "prop_ok": False, "branch": case["scenario"] + ":constructor",
+                    "detail": {"mutated": {"step": -1, "op": "Grid(...)", "objects": w["ctor_mutated"]}}}
         for step, op in enumerate(case["ops"]):
             before = world_snapshot(w)
             try:
@@ -325,4 +359,4 @@ def eval_case(case, drv):
 
 def nontrivial(case, verdict):
     return len(case["ops"]) >= 2 or any(o in ("vecdiff", "fvecdiff", "fvecinterp", "fvecpad", "cumsum", "interp", "min", "pad",
-                                             "ctor", "ctor_faces", "mw_diff", "cumint") for o in case["ops"])
+                                             "ctor", "ctor_faces", "mw_diff", "cumint", "diff_2d_vector", "interp_2d_vector") for o in case["ops"])
